@@ -124,7 +124,15 @@ const (
 	c19Idx0 = "i0" // euclidean float32, dimension 4
 	c19Idx1 = "i1" // cosine float32 english, dimension 3
 	c19Dim  = 4
+
+	c19IdxEmpty   = "ie" // created, never written to
+	c19IdxDeleted = "id" // two vectors added and deleted again
+	c19IdxHalf    = "ih" // euclidean float16, dimension 4
 )
+
+var c19IdxVariants = []string{c19IdxEmpty, c19IdxDeleted, c19IdxHalf, c19Idx1}
+
+var c19Methods = []string{"GET", "HEAD", "POST", "PUT", "PATCH", "DELETE", "OPTIONS", "TRACE", "CONNECT", "get", "QUERY"}
 
 var c19StrHints = map[string]string{
 	"index_name": c19Idx0, "source_index": c19Idx0, "target_index": c19Idx1,
@@ -468,8 +476,22 @@ func c19Items(e *c19Env, r *c19Route, lim c19Limits, thorough bool) []c19Item {
 	hostile := c19Hostile(e)
 	add(c19Item{Kind: "baseline", Body: body(tmpl), Base: true})
 
+	// --- every other method on the same route (with the valid body, if the route has one)
+	for _, m := range c19Methods {
+		if m != r.Method {
+			add(c19Item{Kind: "other-method", Field: m, Method: m, Body: body(tmpl)})
+		}
+	}
+
 	// --- path parameters
 	for _, p := range r.Params {
+		if v := c19ParamValue(r, p); v == c19Idx0 || v == c19Idx1 {
+			for _, ix := range c19IdxVariants {
+				if ix != v {
+					add(c19Item{Kind: "param-other-index", Field: p + "=" + ix, Target: c19Target(r, map[string]string{p: ix}, nil, ""), Body: body(tmpl)})
+				}
+			}
+		}
 		add(c19Item{Kind: "param-unknown", Field: p, Target: c19Target(r, map[string]string{p: "nonexistent_zz"}, nil, ""), Body: body(tmpl)})
 		for _, h := range hostile {
 			esc := (r.Creates || r.Drops) && p == "name" && c19EscapesData(e, h)
@@ -559,6 +581,21 @@ func c19Items(e *c19Env, r *c19Route, lim c19Limits, thorough bool) []c19Item {
 		switch {
 		case f.Kind == "string":
 			add(c19Item{Kind: "unknown-name", Field: f.Name, Body: body(tmpl.set(f.Name, `"nonexistent_zz"`))})
+			if v := tmpl.Vals[f.Name]; v == c19Str(c19Idx0) || v == c19Str(c19Idx1) {
+				// the same valid request against an index in another state (empty, emptied, other
+				// precision / metric / dimension), alone and with each other field dropped
+				for _, ix := range c19IdxVariants {
+					if c19Str(ix) == v {
+						continue
+					}
+					add(c19Item{Kind: "other-index", Field: f.Name + "=" + ix, Body: body(tmpl.set(f.Name, c19Str(ix)))})
+					for _, g := range r.Fields {
+						if _, ok := tmpl.Vals[g.Name]; ok && g.Name != f.Name {
+							add(c19Item{Kind: "other-index-drop", Field: f.Name + "=" + ix + " -" + g.Name, Body: body(tmpl.set(f.Name, c19Str(ix)).drop(g.Name))})
+						}
+					}
+				}
+			}
 			for _, g := range r.Fields { // aliasing: two fields carry the same name
 				if g.Name != f.Name && g.Kind == "string" && tmpl.Vals[g.Name] != tmpl.Vals[f.Name] && tmpl.Vals[g.Name] != `""` {
 					add(c19Item{Kind: "alias", Field: f.Name + "=" + g.Name, Body: body(tmpl.set(f.Name, tmpl.Vals[g.Name]))})
@@ -568,6 +605,9 @@ func c19Items(e *c19Env, r *c19Route, lim c19Limits, thorough bool) []c19Item {
 				esc := (r.Creates || r.Drops) && f.Name == "index_name" && c19EscapesData(e, h)
 				add(c19Item{Kind: "hostile-name", Field: f.Name, Body: body(tmpl.set(f.Name, c19Str(h))), Hostile: true, Escapes: esc})
 			}
+			// the content of the string, read by the server as a name, an enumeration value, a
+			// filter expression, a query ...: edits of valid values (c19_str_test.go)
+			c19StrItems(e, r, f.Name, f.Name, tmpl.Vals[f.Name], func(raw string) []byte { return body(tmpl.set(f.Name, raw)) }, add)
 		case c19IsVecField(f):
 			for _, n := range []int{1, c19Dim - 1, c19Dim + 1, 1024} {
 				add(c19Item{Kind: "wrong-dimension", Field: f.Name, Body: body(tmpl.set(f.Name, c19Vec(n)))})
@@ -581,6 +621,9 @@ func c19Items(e *c19Env, r *c19Route, lim c19Limits, thorough bool) []c19Item {
 			for _, h := range hostile {
 				add(c19Item{Kind: "hostile-name", Field: f.Name, Body: body(tmpl.set(f.Name, `[`+c19Str(h)+`,"a"]`)), Hostile: true})
 			}
+			if first := c19FirstElem(tmpl.Vals[f.Name]); first != "" {
+				c19StrItems(e, r, f.Name, f.Name+"[0]", first, func(raw string) []byte { return body(tmpl.set(f.Name, "["+raw+`,"a"]`)) }, add)
+			}
 			if thorough {
 				add(c19Item{Kind: "long-list", Field: f.Name, Body: body(tmpl.set(f.Name, "["+strings.Repeat(`"a",`, 200000)+`"b"]`))})
 			}
@@ -591,6 +634,10 @@ func c19Items(e *c19Env, r *c19Route, lim c19Limits, thorough bool) []c19Item {
 			for _, sf := range f.Sub {
 				add(c19Item{Kind: "nested-drop", Field: f.Name + "." + sf.Name, Body: body(tmpl.set(f.Name, sub.drop(sf.Name).raw()))})
 				add(c19Item{Kind: "nested-null", Field: f.Name + "." + sf.Name, Body: body(tmpl.set(f.Name, sub.set(sf.Name, "null").raw()))})
+				if sf.Kind == "string" {
+					sf := sf
+					c19StrItems(e, r, sf.Name, f.Name+"."+sf.Name, sub.Vals[sf.Name], func(raw string) []byte { return body(tmpl.set(f.Name, sub.set(sf.Name, raw).raw())) }, add)
+				}
 				for _, s := range c19Samples {
 					it := c19Item{Kind: "nested-value-" + s.Tag, Field: f.Name + "." + sf.Name, Body: body(tmpl.set(f.Name, sub.set(sf.Name, s.Raw).raw()))}
 					it.NegRefEf = sf.Name == "refine_ef_construction" && sf.Kind == "number" && strings.HasPrefix(s.Raw, "-") && s.Raw != "-0"
@@ -682,6 +729,15 @@ func c19Items(e *c19Env, r *c19Route, lim c19Limits, thorough bool) []c19Item {
 		}
 	}
 	return out
+}
+
+// c19FirstElem: the first element of a raw JSON array of strings ("" when there is none).
+func c19FirstElem(raw string) string {
+	var xs []string
+	if json.Unmarshal([]byte(raw), &xs) != nil || len(xs) == 0 {
+		return ""
+	}
+	return c19Str(xs[0])
 }
 
 func c19SubObj(f c19Field) *c19Obj {
